@@ -19,7 +19,7 @@ FUNCTIONS = ["DimensionSet.no_repeated_dimensions", "DimensionSet.copy_dim_list"
 ASSUMPTIONS = ["dimension names concrete, pairwise distinct, >= 2 characters", "dimensions handed to a mutator together (expand_by) have pairwise distinct letters",
                "replace(key, d) with d's letter equal to the replaced dimension's own letter: either outcome accepted (the property only speaks of clashes)"]
 OUTSIDE = ["sets with more than 4 dimensions", "letters that coincide with names"]
-VARIANTS = 'every insert position incl. negative; dimensions sharing a name; receivers looked up before every operation; keys as one-shot iterables; Dimension + set'
+VARIANTS = 'every insert position incl. negative; dimensions sharing a name; receivers looked up before every operation; keys as one-shot iterables; Dimension + set; set + Dimension, set ^ Dimension'
 BOUNDS = {"quick": dict(sizes="|A|,|B| <= 3, all pairs", ops="| & - ^ + get_subset [] in index size shape total_size append prepend insert expand_by replace drop copy constructor",
                         histories="2-step sequences of in-place / out-of-place mutators"),
           "thorough": dict(sizes="|A|,|B| <= 4", ops="as quick", histories="2- and 3-step sequences")}
@@ -221,6 +221,14 @@ def run(cfg, w):
         except Exception as e:
             w.ob("raises_only_for_overlapping_plus", op == "add" and len(a_in_b) > 0, info=f"{type(e).__name__}: {e}")
             check_list(w, "receiver_after_raise", sa, A)
+            if len(B) == 1:
+                # ... and the same refusal when the right operand is the bare Dimension
+                try:
+                    r4 = sa + B[0]
+                    w.ob("set_plus_dimension:refuses_overlap", False, info=str([d.letter for d in r4.dim_list]))
+                except Exception:
+                    pass
+                check_list(w, "set_plus_dimension:receiver_after_raise", sa, A)
             return
         if op == "add":
             w.ob("plus_refuses_overlap", len(a_in_b) == 0)
@@ -232,6 +240,14 @@ def run(cfg, w):
         res.append(f, inplace=True)
         check_list(w, "receiver_after_inplace_edit_of_result", sa, A, absent=[f])
         check_list(w, "other_after_inplace_edit_of_result", sb, B, absent=[f])
+        if op in ("add", "xor") and len(B) == 1:
+            # a single Dimension as the right operand: the same rule as for the one-dimension set
+            try:
+                r4 = sa + B[0] if op == "add" else sa ^ B[0]
+                check_list(w, "set_op_dimension:result", r4, want)
+            except Exception as e:
+                w.ob("set_op_dimension:raises_only_for_overlapping_plus", False, info=f"{type(e).__name__}: {e}")
+            check_list(w, "set_op_dimension:receiver_unchanged", sa, A)
         if op in ("or", "and", "sub") and len(B) == 1:
             r2 = {"or": lambda: sa | B[0], "and": lambda: sa & B[0], "sub": lambda: sa - B[0]}[op]()
             w.ob("single_dimension_operand", ids(r2.dim_list) == ids(want))
